@@ -258,6 +258,8 @@ def has_feature(v, f):
             return True
         if f == 'empty-container' and isinstance(x, (list, dict)) and not x:
             return True
+        if f == 'empty-map-key' and isinstance(x, dict) and b'' in x:
+            return True
         if f == 'array-10-or-more' and isinstance(x, list) and len(x) >= 10:
             return True
         if f == 'integer-beyond-2^53' and isinstance(x, int) and not isinstance(x, bool) and abs(x) > 2 ** 53:
@@ -267,7 +269,7 @@ def has_feature(v, f):
     return False
 
 
-FEATURES = ['empty-string', 'empty-container', 'array-10-or-more', 'integer-beyond-2^53', 'real-17-digits']
+FEATURES = ['empty-string', 'empty-container', 'empty-map-key', 'array-10-or-more', 'integer-beyond-2^53', 'real-17-digits']
 
 
 def neutralise(v, fs):
@@ -290,7 +292,10 @@ def neutralise(v, fs):
     if isinstance(v, dict):
         if not v and 'empty-container' in fs:
             return {b'z': 0}
-        return {k: neutralise(x, fs) for k, x in v.items()}
+        r = {k: neutralise(x, fs) for k, x in v.items()}
+        if 'empty-map-key' in fs and b'' in r:
+            r[b'e' if b'e' not in r else b'e_mpty'] = r.pop(b'')
+        return r
     raise TypeError(v)
 
 
@@ -311,9 +316,11 @@ def gen_string(rng, clean):
     return bytes(rng.choice(b'abcXYZ019_ -.') for _ in range(rng.randint(1, 12)))
 
 
-def gen_key(rng):
+def gen_key(rng, clean=()):
     if rng.random() < 0.6:
         k = rng.choice(KEYS)
+        if not k and ('empty-map-key' in clean or rng.random() < 0.5):
+            k = b'k'
     else:
         k = bytes(rng.choice(b'abcdefgXYZ_019 -.\'"\\') for _ in range(rng.randint(1, 8)))
     # "non-numeric": anything Lua or strtol would read as a number is avoided
@@ -359,5 +366,9 @@ def gen_value(rng, clean, depth=4, maxarr=12):
         return {}
     d = {}
     for _ in range(rng.choice([1, 2, 3, 4, 6])):
-        d[gen_key(rng)] = gen_value(rng, clean, depth - 1, maxarr)
+        d[gen_key(rng, clean)] = gen_value(rng, clean, depth - 1, maxarr)
+    if len(d) == 1 and b'' in d:
+        # a table whose only key is "" reads back as an array padded up to an uninitialised index (listed finding empty-map-key):
+        # the run would spend its time filling memory; keep the trigger but not this symptom
+        d[b'z'] = 0
     return d
